@@ -510,9 +510,10 @@ func historyStage(out string, seed uint64, tier string) error {
 					return err
 				}
 				stat["fresh_process_calls"]++
-				// (with install_if packages the outcome legitimately varies, C08-F1/F3: the
-				// fresh-process sample just joins the oracle set and Coq classifies it)
-				if !hasInstallIf(h.Universe) && len(so.Oracle[i]) == 1 && so.Oracle[i][0].key() != o.key() {
+				// (universes with install_if packages included: since fix c03e0c0 the install_if
+				// loop has one answer; the fresh-process sample also joins the oracle set, so
+				// that Coq classifies a difference and compares every outcome with the model)
+				if len(so.Oracle[i]) == 1 && so.Oracle[i][0].key() != o.key() {
 					d, _ := json.Marshal(map[string]any{"history": h, "call": i, "reset_oracle": so.Oracle[i][0], "fresh_process": o})
 					fmt.Printf("IMPL-VIOLATION tag=fresh-process-differs-from-reset-caches %s\n", d)
 				}
@@ -694,7 +695,7 @@ func concStage(out string, seed uint64, tier string) error {
 		bases = bases[:scenarios/2]
 	}
 	for i := 0; len(bases) < scenarios; i++ {
-		bases = append(bases, genHistoryOpts(r, i, false, false))
+		bases = append(bases, genHistoryOpts(r, i, i%3 == 1, false))
 	}
 	races, crashes := 0, 0
 	for k, h := range bases {
